@@ -49,6 +49,9 @@ fn report(out: rzmq::protocol::zmtp::actions::EngineOutput) {
 fn main() {
   let stdin = std::io::stdin();
   let mut eng: Option<ZmtpEngine> = None;
+  let mut trie: Option<rzmq::verif_facade::VSubscriptionTrie> = None;
+  let mut lb: Option<rzmq::verif_facade::VLoadBalancer> = None;
+  let mut eb: Option<rzmq::verif_facade::VEgressBuffer> = None;
   let base = Instant::now();
   for line in stdin.lock().lines() {
     let line = line.unwrap();
@@ -165,6 +168,64 @@ fn main() {
           Err(_) => println!("PANIC in send_multipart with {} frames", n),
         }
         std::process::exit(0);
+      }
+      "trie_new" => trie = Some(rzmq::verif_facade::VSubscriptionTrie::new()),
+      "trie_sub" => trie.as_ref().unwrap().subscribe(&unhex(it.next().unwrap_or(""))),
+      "trie_unsub" => println!("unsub {}", trie.as_ref().unwrap().unsubscribe(&unhex(it.next().unwrap_or("")))),
+      "trie_match" => println!("match {}", trie.as_ref().unwrap().matches(&unhex(it.next().unwrap_or("")))),
+      "lb_new" => lb = Some(rzmq::verif_facade::VLoadBalancer::new()),
+      "lb_add" => lb.as_ref().unwrap().add_connection(it.next().unwrap()),
+      "lb_remove" => lb.as_ref().unwrap().remove_connection(it.next().unwrap()),
+      "lb_next" => println!("next {} count={}", lb.as_ref().unwrap().next_uri().unwrap_or_else(|| "none".into()), lb.as_ref().unwrap().connection_count()),
+      "eb_new" => eb = Some(rzmq::verif_facade::VEgressBuffer::new()),
+      "eb_push" => {
+        let d = unhex(it.next().unwrap());
+        let c: usize = it.next().unwrap().parse().unwrap();
+        eb.as_mut().unwrap().push(bytes::Bytes::from(d), c);
+      }
+      "eb_prio" => eb.as_mut().unwrap().push_priority(bytes::Bytes::from(unhex(it.next().unwrap()))),
+      "eb_write" => {
+        let n: usize = it.next().unwrap().parse().unwrap();
+        let b = eb.as_mut().unwrap();
+        println!("slice {}", b.current_slice().map(hex).unwrap_or_else(|| "none".into()));
+        let popped = b.advance(n);
+        println!("advanced popped={} pending={} bytes={}", popped, b.pending_messages(), b.total_pending_bytes());
+      }
+      "ingress_detach" => {
+        // recv() of the first frame of A (pipe 0), then pipe 1 (message B) is deregistered, then two more recv()
+        use rzmq::verif_facade::VAnonymousIngress;
+        let rt = tokio::runtime::Builder::new_current_thread().enable_all().build().unwrap();
+        let eng = VAnonymousIngress::new(4);
+        let s0 = eng.register_pipe(0, 4);
+        let s1 = eng.register_pipe(1, 4);
+        let mk = |tags: &[u8]| {
+          let mut fb = rzmq::FrameBatch::new();
+          for (i, t) in tags.iter().enumerate() {
+            let mut m = rzmq::Msg::from_vec(vec![*t]);
+            if i + 1 < tags.len() {
+              m.set_flags(rzmq::MsgFlags::MORE);
+            }
+            fb.push(m);
+          }
+          fb
+        };
+        assert!(s0.try_send(mk(&[0xA1, 0xA2, 0xA3])));
+        assert!(s1.try_send(mk(&[0xB1, 0xB2])));
+        let zero = Some(Duration::ZERO);
+        rt.block_on(async {
+          let mut out = Vec::new();
+          if let Ok(m) = eng.recv(zero).await {
+            out.push(hex(m.data().unwrap_or(&[])));
+          }
+          eng.deregister_pipe(1);
+          for _ in 0..2 {
+            match eng.recv(zero).await {
+              Ok(m) => out.push(hex(m.data().unwrap_or(&[]))),
+              Err(_) => out.push("none".into()),
+            }
+          }
+          println!("ingress delivered {}", out.join(","));
+        });
       }
       "inproc" => {
         use rzmq::SocketType;
